@@ -354,6 +354,17 @@ func (s *Sym) evalSlice(v *ssa.Slice) *Term {
 			}
 		}
 	}
+	// s[:] / s[:n] of a local zeroed array that is only ever filled through
+	// this slice: a fresh buffer (go/ssa lowers make([]T, const) to this)
+	if al, ok := v.X.(*ssa.Alloc); ok && v.Low == nil && v.Max == nil {
+		if arr, ok := deref(al.Type()).Underlying().(*types.Array); ok && len(*al.Referrers()) == 1 {
+			ln := T("const", fmt.Sprintf("%d", arr.Len()))
+			if v.High != nil {
+				ln = s.Of(v.High)
+			}
+			return s.bufferTerm(v, ln)
+		}
+	}
 	x := s.Of(v.X)
 	lo, hi := T("const", "nil"), T("const", "nil")
 	if v.Low != nil {
@@ -1382,7 +1393,10 @@ func (s *Sym) allocLiteral(a *ssa.Alloc) *Term {
 // evalMake: a fresh buffer. If exactly one instruction fills it (copy into it,
 // or a call receiving it), the filler is part of the term.
 func (s *Sym) evalMake(v *ssa.MakeSlice) *Term {
-	ln := s.Of(v.Len)
+	return s.bufferTerm(v, s.Of(v.Len))
+}
+
+func (s *Sym) bufferTerm(v ssa.Value, ln *Term) *Term {
 	var fillers []*Term
 	for _, r := range *v.Referrers() {
 		ci, ok := r.(ssa.CallInstruction)
